@@ -53,6 +53,8 @@ def cases(tier, seed):
     for t in range(4):
         for shape in ('one', 'two-namespaces', 'default-and-named', 'labels', 'no-help-unit'):
             out.append({'k': 'prometheus', 't': t, 'shape': shape})
+    for how in ('label-added', 'label-removed', 'type-changed', 'unit-changed'):
+        out.append({'k': 'redefine', 'how': how})
     # the OpenTelemetry processor shipped with the agent: every report must be taken by the OpenTelemetry API (no error of the processor)
     for t in range(4):
         for shape in ('one', 'no-help-unit', 'labels'):
@@ -204,6 +206,55 @@ def prometheus(ctx, desc):
             pass
 
 
+def redefine(ctx, desc):
+    """A metric is defined, hit, and defined again under the same name with one more label / another type / another unit (the tracepoint
+    was edited - the every-day use of a dynamic agent). The registry of the shipped Prometheus processor shows what the second definition
+    reported."""
+    from deep.api.plugin.metric.prometheus_metrics import PrometheusPlugin
+    from deep.api.tracepoint.tracepoint_config import MetricDefinition, LabelExpression
+    from deep.api.tracepoint.trigger import build_trigger
+    from prometheus_client import REGISTRY
+    ns, path = prog()
+    how = desc['how']
+    tag = 'c17r' + how.replace('-', '')
+    first = MetricDefinition(tag, 'counter', [LabelExpression('ls', 'sv', None)], 'n', 'shop', 'h', 'ms')
+    if how == 'label-added':
+        second = MetricDefinition(tag, 'counter', [LabelExpression('ls', 'sv', None), LabelExpression('lx', None, 'n + 1')], 'n', 'shop', 'h', 'ms')
+        sample, labels, want = 'shop_%s_ms_total' % tag, {'ls': 'sv', 'lx': '6'}, 10.0
+    elif how == 'label-removed':
+        second = MetricDefinition(tag, 'counter', [], 'n', 'shop', 'h', 'ms')
+        sample, labels, want = 'shop_%s_ms_total' % tag, {}, 10.0
+    elif how == 'type-changed':
+        second = MetricDefinition(tag, 'histogram', [LabelExpression('ls', 'sv', None)], 'n', 'shop', 'h', 'ms')
+        sample, labels, want = 'shop_%s_ms_sum' % tag, {'ls': 'sv'}, 10.0
+    else:
+        second = MetricDefinition(tag, 'counter', [LabelExpression('ls', 'sv', None)], 'n', 'shop', 'h', 's')
+        sample, labels, want = 'shop_%s_s_total' % tag, {'ls': 'sv'}, 10.0
+    plugin = PrometheusPlugin(None)
+    agent = rig.Agent(plugins=[plugin], journal=rig.Journal())
+    ctx.case()
+    ctx.nt(('redefine', how))
+    try:
+        for d in (first, second):
+            agent.install([build_trigger('tp-m', 'c17prog.py', LINE, {'fire_count': '2', 'fire_period': '0', 'snapshot': 'no_collect'}, [], [d])])
+            with rig.VirtualClock():
+                run = Forwarder({path}, agent.handler).call(ns['target'], 5, ns['Thing'](), 2)
+            if run.escaped or run.exc is not None:
+                ctx.violation('C17/redefine/handler-raised', f'{desc}: {run.escaped[:1] or run.exc!r}', desc)
+                return
+        got = REGISTRY.get_sample_value(sample, labels)
+        old = REGISTRY.get_sample_value('shop_%s_ms_total' % tag, {'ls': 'sv'})
+        ctx.outcome(('redefine', how, got))
+        if got != want:
+            ctx.violation(f'C17/redefine/{how}', f'counter {tag}{{ls}} [ms] hit twice, then defined again ({how}) and hit twice with n=5: the registry shows '
+                          f'{sample}{labels} = {got}, the second definition reported 2 x 5; the first definition\'s series reads {old}', desc)
+    finally:
+        try:
+            plugin.clear()
+        except BaseException:
+            pass
+
+
 _OTEL = {}
 
 
@@ -270,6 +321,8 @@ def run_case(ctx, desc):
         return otel(ctx, desc)
     if desc.get('k') == 'prometheus':
         return prometheus(ctx, desc)
+    if desc.get('k') == 'redefine':
+        return redefine(ctx, desc)
     if desc.get('k') == 'chunk':
         for it in desc['items']:
             one(ctx, it)
